@@ -32,13 +32,14 @@ structure LockCfg where
   generatorCountersAtomic : Bool  -- `_num_feedbacks += 1` serialised (lexically or by every call chain)
   evolutionProposeAtomic : Bool   -- Evolution._propose touches its queue/population under its lock
   evolutionFeedbackAtomic : Bool  -- Evolution._feedback touches the population under its lock
+  proposeBeforeBookkeeping : Bool -- create_trial calls dna_fn() (which may raise) before it touches any state
   deriving DecidableEq, Repr
 
 def LockCfg.allAtomic (c : LockCfg) : Bool :=
   c.getOrCreateAtomic && c.algoSetupAtomic && c.nextReuseAtomic && c.createTrialAtomic &&
   c.completeTrialAtomic && c.doneCheckAndSetAtomic && c.skipCheckAndSetAtomic &&
   c.addMeasurementAtomic && c.generatorCountersAtomic && c.evolutionProposeAtomic &&
-  c.evolutionFeedbackAtomic
+  c.evolutionFeedbackAtomic && c.proposeBeforeBookkeeping
 
 structure Trial where
   id : Nat
@@ -66,6 +67,8 @@ structure Algo where
   numFeedbacks : Nat := 0
   fedBack : List Nat := []         -- ghost: trial ids passed to algorithm.feedback, in order
   setups : Nat := 0                -- ghost: how often `setup` ran
+  space : Option Nat := none       -- a finite proposer (Sweeping, generator): `_propose` raises
+                                   -- StopIteration once `space` proposals have been made
 
 /-- Program counter of a worker (a thread iterating `pg.sample(..., name=…, group=…)`). -/
 inductive PC where
@@ -88,7 +91,9 @@ inductive PC where
   | skipOk (t : Nat)
   | cpComplW (t : Nat) | cpPendR (t : Nat) | cpPendW (t : Nat) | cpInf (t : Nat)
   | cpBestR (t : Nat) | cpBestW (t : Nat)
-  | finished                       -- StopIteration: the generator returned
+  | finished                       -- StopIteration by budget / end_loop: the generator returned
+  | exhausted                      -- StopIteration raised by the proposer: the generator returned
+  | crashed                        -- the proposer raised another exception: it left pg.sample
   deriving DecidableEq, Repr
 
 structure Worker where
@@ -109,18 +114,26 @@ inductive Act where
   | gocAtomic | gocTest | gocRegister | gocFetch
   | setupAtomic | setupTest | setupDo
   | checkActive
-  | nextAtomic | nextLatest | nextStatus
-  | createAtomic | ctCheck | ctNew | ctAppend | ctPendR | ctPendW | ctLatest
+  | nextAtomic | nextAtomicErr | nextLatest | nextStatus
+  | createAtomic | createAtomicErr | ctCheck | ctNew | ctAppend | ctPendR | ctPendW | ctLatest
   | release
   | measure (r : Int) | amStatus | amAppend (r : Int)
   | doneAtomic | doneStatus | doneSet | doneFinal | fbAtomic | fbRead | fbWrite | fbSkip
   | skipAtomic | skipStatus | skipSet
   | completeAtomic | cpComplR | cpComplW | cpPendR | cpPendW | cpInf | cpBestR | cpBestW
   | endLoop
+  | poll                           -- user code reads poll_result(name) (no shared write)
   deriving DecidableEq, Repr
 
-def init (n : Nat) (groups : Nat → Nat) (maxTrials : Option Nat) : State :=
-  { maxTrials := maxTrials, nWorkers := n, workers := fun i => { group := groups i } }
+def init (n : Nat) (groups : Nat → Nat) (maxTrials : Option Nat) (space : Option Nat := none) : State :=
+  { maxTrials := maxTrials, nWorkers := n, algo := { space := space },
+    workers := fun i => { group := groups i } }
+
+/-- `_propose` of a finite proposer raises StopIteration. -/
+def Algo.spaceExhausted (a : Algo) : Bool :=
+  match a.space with
+  | some sp => decide (sp ≤ a.numProposals)
+  | none => false
 
 /-! ### Pure bodies of the regions -/
 
@@ -239,18 +252,23 @@ def gocAtomic (s : State) (w : Nat) : State :=
 def setupAtomic (s : State) (w : Nat) : State :=
   (if s.algo.isSetup then s else { s with algo := s.algo.setup }).setPc w .loop
 
-/-- create_trial (184-196) under the study lock. -/
-def createAtomic (s : State) (w : Nat) (st : Study) : State :=
+/-- create_trial (184-196) under the study lock. `err`: the proposer raises a transient exception
+on this call. `early`: the source does bookkeeping before calling `dna_fn()` (flag
+`proposeBeforeBookkeeping` false) — then a raising proposer leaves `PENDING += 1` behind. -/
+def createAtomic (s : State) (w : Nat) (st : Study) (err early : Bool) : State :=
   if exhausted s.maxTrials st then s.setPc w .finished
+  else if s.algo.spaceExhausted || err then
+    (if early then s.setStudy w { st with numPending := st.numPending + 1 } else s).setPc w
+      (if s.algo.spaceExhausted then .exhausted else .crashed)
   else
     let id := st.trials.length + 1
     ({ s with algo := s.algo.propose }.setStudy w (st.create (s.workers w).group)).setPc w (.hold id)
 
 /-- 377-379 under one hold of the study lock. -/
-def nextAtomic (s : State) (w : Nat) (st : Study) : State :=
+def nextAtomic (s : State) (w : Nat) (st : Study) (err early : Bool) : State :=
   match st.latest (s.workers w).group with
-  | some t => if st.isPending t then s.setPc w (.hold t) else createAtomic s w st
-  | none => createAtomic s w st
+  | some t => if st.isPending t then s.setPc w (.hold t) else createAtomic s w st err early
+  | none => createAtomic s w st err early
 
 /-- _add_measurement (104-113) under the study lock. -/
 def measureAtomic (s : State) (w : Nat) (st : Study) (t : Nat) (r : Int) : State :=
@@ -312,7 +330,11 @@ def exec (cfg : LockCfg) (s : State) (w : Nat) (a : Act) : Option State :=
       else none
     | .nextAtomic =>
       if cfg.nextReuseAtomic && cfg.createTrialAtomic && wk.pc == .next then
-        (s.studyOf w).map (nextAtomic s w)
+        (s.studyOf w).map (fun st => nextAtomic s w st false (!cfg.proposeBeforeBookkeeping))
+      else none
+    | .nextAtomicErr =>
+      if cfg.nextReuseAtomic && cfg.createTrialAtomic && wk.pc == .next then
+        (s.studyOf w).map (fun st => nextAtomic s w st true (!cfg.proposeBeforeBookkeeping))
       else none
     | .nextLatest =>
       if !cfg.nextReuseAtomic && wk.pc == .next then
@@ -327,7 +349,11 @@ def exec (cfg : LockCfg) (s : State) (w : Nat) (a : Act) : Option State :=
       else none
     | .createAtomic =>
       if !cfg.nextReuseAtomic && cfg.createTrialAtomic && wk.pc == .create then
-        (s.studyOf w).map (createAtomic s w)
+        (s.studyOf w).map (fun st => createAtomic s w st false (!cfg.proposeBeforeBookkeeping))
+      else none
+    | .createAtomicErr =>
+      if !cfg.nextReuseAtomic && cfg.createTrialAtomic && wk.pc == .create then
+        (s.studyOf w).map (fun st => createAtomic s w st true (!cfg.proposeBeforeBookkeeping))
       else none
     | .ctCheck =>
       if !cfg.createTrialAtomic && (wk.pc == .create || (cfg.nextReuseAtomic && wk.pc == .next)) then
@@ -335,7 +361,9 @@ def exec (cfg : LockCfg) (s : State) (w : Nat) (a : Act) : Option State :=
       else none
     | .ctNew =>
       if !cfg.createTrialAtomic && wk.pc == .ctNew then
-        (s.studyOf w).map (fun st => { s with algo := s.algo.propose }.setPc w (.ctAppend (st.trials.length + 1)))
+        (s.studyOf w).map (fun st =>
+          if s.algo.spaceExhausted then s.setPc w .exhausted
+          else { s with algo := s.algo.propose }.setPc w (.ctAppend (st.trials.length + 1)))
       else none
     | .ctAppend =>
       if !cfg.createTrialAtomic then
@@ -364,6 +392,7 @@ def exec (cfg : LockCfg) (s : State) (w : Nat) (a : Act) : Option State :=
         | _, _ => none
       else none
     -- user code on a held feedback object ----------------------------------------------
+    | .poll => some s
     | .release =>
       match wk.pc with
       | .hold _ => some (s.setPc w .loop)
@@ -572,6 +601,9 @@ def checkStudy (maxT : Option Nat) (a : Algo) (st : Study) : Bool :=
   ((List.range (st.trials.length + 2)).all fun k => a.fedBack.count k == st.trials.countP (fedPred k)) &&
   (a.fedBack.all fun k => a.fedBack.count k == st.trials.countP (fedPred k)) &&
   (st.trials.all fun t => t.completed || st.latest t.group == some t.id) &&
+  (match a.space with
+   | some sp => decide (a.numProposals ≤ sp)
+   | none => true) &&
   checkBest st
 
 def checkState (s : State) : Bool :=
